@@ -1510,3 +1510,43 @@ add("onref-28-countmin-del-table-view-unlinks", ["C16"], "countmin",
 add("onref-29-filtered-request-table-builds-hll-for-hh", ["C08"], "helpers",
     _on_refactor("QF08", ("helpers", '            ("hh", HeavyHitters, hh_args),', '            ("hh", HyperLogLog, hh_args),')), None,
     rules=["joinfirst", "attach-table", "argsdict", "rettable"], note="QF08's `requested` table (a comprehension filtered by the option arguments): the 'hh' row names the HyperLogLog constructor")
+add("onref-30-extracted-monitor-no-longer-tears-down", ["C19"], "helpers",
+    _on_refactor("QH19", ("helpers", "            # Finished but with non-zero exit code, which is bad\n            _tear_down(workers, fill_queue_process, log_process, queues)\n",
+                          "            # Finished but with non-zero exit code, which is bad\n            pass\n")), None,
+    rules=["dead-detect", "dead-raise", "dead-cleanup"], note="QH19's _watch_workers (the monitor loop as a helper that returns from inside `while True`) notices the dead worker and does nothing")
+add("onref-31-lazy-stale-checks-forget-n-added", ["C13"], "heavyhitters",
+    _on_refactor("QH13", ("heavyhitters", "            lambda: self.n_added() > self.n_added_sort,\n", "")), None, rules=["cachekey"],
+    note="QH13's tuple of lazily evaluated staleness checks loses the n_added one")
+add("onref-32-occupied-generator-skips-count-one", ["C13"], "heavyhitters",
+    _on_refactor("QH13", ("heavyhitters", "            if self.lhh_count[bucket] != 0\n", "            if self.lhh_count[bucket] > 1\n")), None, rules=["scan-all"],
+    note="QH13's generator of occupied buckets (consumed by the candidate loop) also drops cells whose count is one")
+add("onref-33-class-constant-bounds-admit-p6", ["C02", "C17"], "hyperloglog",
+    _on_refactor("QH02", ("hyperloglog", "    _P_BOUNDS = (np.uint64(7), np.uint64(16))", "    _P_BOUNDS = (np.uint64(6), np.uint64(16))")), None, rules=["ctor-range", "tabidx"],
+    note="QH02's class-level pair of precision bounds (unpacked in __init__) starts at 6")
+add("onref-34-halving-shift-table-misses-the-2-bit-probe", ["C02"], "hyperloglog",
+    _on_refactor("QH02", ("hyperloglog", "_HALVING_SHIFTS = (32, 16, 8, 4, 2)", "_HALVING_SHIFTS = (32, 16, 8, 4, 4)")), None, rules=["nlz"],
+    note="QH02's module-level shift table iterated by the leading-zero kernel has a wrong last entry")
+add("onref-35-nested-generator-scan-misses-last-column", ["C03", "C13"], "heavyhitters",
+    _on_refactor("QH04", ("heavyhitters", "            for column in range(self.width)\n", "            for column in range(self.width - 1)\n")), None, rules=["scan-all"],
+    note="QH04's two-level generator of occupied cells stops one column early")
+add("onref-37-finals-table-merges-hh-from-the-cms-list", ["C08"], "helpers",
+    _on_refactor("QH08", ("helpers", '        ("hh", hh_args, hh_array),', '        ("hh", hh_args, cms_array),')), None,
+    rules=["joinfirst", "rettable"], note="QH08's merge table (results kept in a dict keyed by tag) merges the cms list under the tag 'hh'")
+add("onref-38-nested-return-table-swaps-a-pair", ["C08"], "helpers",
+    _on_refactor("QH08", ("helpers", '                return finals["cms"], finals["hll"]', '                return finals["hll"], finals["cms"]')), None,
+    rules=["rettable"], note="QH08's fully nested return table reading a dict of results returns (hll, cms) for the cms+hll request")
+add("onref-39-next-table-loads-log16-files-as-log8", ["C10"], "countmin",
+    _on_refactor("QI10", ("countmin", "        (np.uint16, CountMinLog16),", "        (np.uint16, CountMinLog8),")), None,
+    rules=["dispatch", "reader-api"], note="QI10's module load() picks the class with next() over a (dtype, class) table; the uint16 row names CountMinLog8")
+add("onref-40-lambda-row-table-picks-the-next-bias-row", ["C17"], "hyperloglog",
+    _on_refactor("QI02", ("hyperloglog", '            ("bias_data", lambda r: bias_data[r, :]),', '            ("bias_data", lambda r: bias_data[r + 1, :]),')), None,
+    rules=["tabidx"], note="QI02's constructor sets the three table rows with setattr over (name, lambda) rows; the bias lambda reads row r + 1")
+add("onref-41-count-gap-subtracts-the-wrong-way", ["C03", "C04"], "heavyhitters",
+    _on_refactor("QI04", ("heavyhitters", "        return count - other_count", "        return other_count - count")), None,
+    rules=["bm-table"], note="QI04's shared _count_gap helper returns other - count when count is the larger one (wraps)")
+add("onref-42-special-counter-table-names-slot-0-twice", ["C09"], "countmin",
+    _on_refactor("QI09", ("countmin", "_SPECIAL_COUNTER_IDXS = (_N_ADDED_IDX, _N_RECORDS_IDX)", "_SPECIAL_COUNTER_IDXS = (_N_ADDED_IDX, _N_ADDED_IDX)")), None,
+    rules=["sumcounters", "nrecs"], note="QI09's _merge_special_counters loops over a module tuple of named slots that lists slot 0 twice")
+add("onref-36-table-rows-by-generator-off-by-one", ["C17"], "hyperloglog",
+    _on_refactor("QH17", ("hyperloglog", "        row = int(self.p) - 7\n", "        row = int(self.p) - 6\n")), None, rules=["tabidx"],
+    note="QH17 selects the three table rows with one generator over the tables; the row index is p - 6")
